@@ -330,7 +330,7 @@ PROPS["C10"] = {
     "level_note": "Trusted: Lean kernel; extractor; harness abstraction of loaded variables; go-task/template for the restricted template forms.",
 }
 PROPS["C11"] = {
-    "lean": "Props.C11", "domains": [{"name": "vars"}],
+    "lean": "Props.C11", "domains": [{"name": "vars", "env": {"VERIF_VARS_POSTMON": "0"}}],
     "trusted": PROPS["C10"]["trusted"],
     "assumptions": PROPS["C10"]["assumptions"] + ["C11 is proved under EnvIndep (an sh: command's output depends on its text and directory only); without it the "
                                                    "statement is false (machine-checked counterexample; open finding C11-dynamic-cache-ignores-env)"],
@@ -344,7 +344,7 @@ _sched("C02", "Theorems over every accepted trace: the non-deferred entries of o
               "each closed before the next (seqMon, C02_seq); a `task:` entry returns only after the callee, all its descendants at any depth and all "
               "its deferred entries have finished (C02_call_sync, C02_descendants_done); a woken dedup waiter implies the shared execution is over. "
               "Loop order (list, row-major matrix) and call variables: Props.C02Vars over the Vars model, tied by domain `vars`.")
-PROPS["C02"]["domains"] = [{"name": "sched"}, {"name": "vars", "env": {"VERIF_VARS_ENVDEP": "0"}}]
+PROPS["C02"]["domains"] = [{"name": "sched"}, {"name": "vars", "env": {"VERIF_VARS_ENVDEP": "0", "VERIF_VARS_POSTMON": "0"}}]
 PROPS["C02"]["lean"] = "Props.C02All"
 PROPS["C02"]["prop_modules"] = ["Props.C02", "Props.C02Vars"]
 _sched("C03", "Theorems over every accepted trace: after a command failure that is not ignored no later non-deferred entry of that activation starts "
@@ -426,9 +426,9 @@ def _c11_env_cache(m):
     Narrow: vars domain, not the first compile of the sequence (same or another task compiled earlier with other values), the
     case contains an env-reading command, and only names defined through such a command (or referring to one) differ."""
     c = m.get("case") or {}
-    if m.get("domain") != "vars" or c.get("kind") != "resolve" or c.get("only", 0) < 1 or not m["case_line"].startswith("vars.resolve"):
+    if m.get("domain") != "vars" or c.get("kind") != "resolve" or c.get("only", 0) < 1 or not m["case_line"].startswith("vars.compile"):
         return False
-    lists = [c.get("root_vars") or [], c.get("inc_vars") or [], c.get("sub_vars") or []]
+    lists = [c.get("root_vars") or [], c.get("inc_vars") or [], c.get("sub_vars") or [], c.get("deep_inc_vars") or [], c.get("leaf_vars") or []]
     for t in c.get("tasks") or []:
         lists.append(t.get("vars") or [])
     for cl in c.get("seq") or []:
@@ -449,11 +449,15 @@ def _c11_env_cache(m):
             for d in l:
                 if d["name"] not in tainted and any(("{{.%s}}" % t) in d["text"] or (d["kind"] in ("ref", "envsh") and d["text"] == t) for t in tainted):
                     tainted.add(d["name"]); changed = True
-    pool = ["VA", "VB", "VC", "VD", "VE", "VF", "VG"]
+    # the answer line: the values of VARS_QUERY (harness vQuery), then `dir=…`
     a, b = m["impl"].split(), m["model"].split()
-    if len(a) != len(b) or len(a) != len(pool):
+    if len(a) != len(b) or len(a) != len(VARS_QUERY) + 1:
         return False
-    return all(pool[i] in tainted for i in range(len(pool)) if a[i] != b[i])
+    return a[-1] == b[-1] and all(VARS_QUERY[i] in tainted for i in range(len(VARS_QUERY)) if a[i] != b[i])
+
+
+VARS_QUERY = ["VA", "VB", "VC", "VD", "VE", "VF", "VG", "TASK", "TASK_DIR", "ROOT_DIR", "ROOT_TASKFILE", "TASKFILE", "TASKFILE_DIR", "USER_WORKING_DIR",
+              "ALIAS", "MATCH", "CHECKSUM", "TIMESTAMP"]
 
 
 def _c10_cli_specials(m):
@@ -464,8 +468,17 @@ def _c10_cli_specials(m):
             and m["impl"].endswith(" cli-special-empty"))
 
 
+def _c10_post_layer(m):
+    """C10-fingerprint-vars-override-user-definition, one mechanism only: the monitor line `vars.postmon` of a task with sources whose
+    CHECKSUM / TIMESTAMP is defined (one literal) at a site the call sees, and the task got the live fingerprint value instead (tag set
+    by the harness)."""
+    return (m.get("domain") == "vars" and m.get("case_line", "").startswith("vars.postmon ")
+            and m["impl"].endswith(" post-layer-wins"))
+
+
 FINDING_PREDICATES = {
     "C10-cli-specials-defined-after-globals": _c10_cli_specials,
+    "C10-fingerprint-vars-override-user-definition": _c10_post_layer,
     "C11-dynamic-cache-ignores-env": _c11_env_cache,
     "C19-cli-values-are-templated": _c19_values_templated,
     "C19-no-value-text-deleted": _c19_no_value_deleted,
